@@ -42,6 +42,7 @@ __CPROVER_ensures(TOKEN_INV(self) && !T(self->has_commit_run_req_))           /*
     ('ghost', 'CL_runThisAfterLoop', 'entry'): 'g_l = self; g_closed = 0; g_deleted = 0;',
 }
 H = m.H
+SPEC[('guarded_by', 'event_CommonLoop')] = {'has_commit_run_req_': 'B->lock_.held > 0', 'run_in_loop_func_queue_': 'B->lock_.held > 0'}
 UNITS = [UnitSpec(name='loop_lifecycle', spec=SPEC, emit=[C + 'runThisAfterLoop'], targets=[
       Target('runThisAfterLoop', H('  Loop *l; CL_runThisAfterLoop(l);'), enforce='CL_runThisAfterLoop', replace=['CL_cleanupDeferredTasks', 'v_sys_close', 'v_tid__reset', 'v_delete__v_handle'],
              clause='end of a loop run: eventfd closed once, no wake-up flag left raised for the next run of the same loop'),
